@@ -1113,6 +1113,24 @@ async fn run_op(c: &str, n: i64, o: &Op) -> Res {
             put_h(&o.nh, nh);
             r("ok", a)
         }
+        "join" if o.d == 5 => {
+            // the join future is made first, the OwningAddr is detached, then the future is awaited: it still yields the actor
+            let h = take_h(&o.h);
+            let a = actor_of(h.aid());
+            let j = match h {
+                Owning(mut x) => {
+                    let j = x.join();
+                    let plain = x.detach();
+                    put_h(&o.nh, Addr(plain));
+                    j.await
+                }
+                _ => panic!("harness: join on wrong kind"),
+            };
+            match j {
+                Some(j) => Res { res: "some", pos: j.st_len, inst: j.inst, a },
+                None => r("none", a),
+            }
+        }
         "join" => {
             let mut h = Held::take(&o.h);
             let a = actor_of(h.get().aid());
